@@ -218,6 +218,39 @@ def value_for(ctx, target, pname, kind, sofar):
     if pname == 's' and 'from_string' in target:
         return r.choice(['1', 'e.2,3', '~4', 'e.4,3', '3,1,2', 'x7', '5,5', 'E.10,2', '~e.9,8,7', '', 'e.', 'a,b', '01',
                          'e.1,', '12,0,3'])
+    if pname == 'keys' and kind == 'list':
+        import penman.__main__ as pm
+        ks = [k for k in pm.REARRANGE_KEYS if k != 'random']
+        r.shuffle(ks)
+        return ks[:r.randint(0, len(ks))] + ([ks[0]] if r.random() < 0.2 and ks else [])
+    if pname == 'key_funcs':
+        import penman.__main__ as pm
+        return dict(pm.REARRANGE_KEYS)
+    if target.endswith('Model.__init__'):
+        if pname == 'self':
+            from penman.model import Model
+            return Model.__new__(Model)
+        if pname == 'top_variable':
+            return 'top'
+        if pname == 'top_role':
+            return ':TOP'
+        if pname == 'concept_role':
+            return ':instance'
+        if pname == 'roles':
+            return r.choice([None, {':ARG0': {}, ':mod': {}, ':ARG[0-9]': {}}])
+        if pname == 'normalizations':
+            return r.choice([None, {':mod-of': ':domain'}])
+        if pname == 'reifications':
+            base = [(':poss', 'own-01', ':ARG0', ':ARG1'), (':poss', 'have-03', ':ARG0', ':ARG1'),
+                    (':mod', 'have-mod-91', ':ARG1', ':ARG2'), (':subset', 'include-91', ':ARG2', ':ARG1'),
+                    (':superset', 'include-91', ':ARG1', ':ARG2'), (':role', 'have-org-role-91', ':ARG0', ':ARG2'),
+                    (':employed-by', 'have-org-role-91', ':ARG0', ':ARG1'), (':beneficiary', 'benefit-01', ':ARG0', ':ARG1'),
+                    (':beneficiary', 'receive-01', ':ARG2', ':ARG0')]
+            r.shuffle(base)
+            out_ = base[:r.randint(0, len(base))]
+            if r.random() < 0.2 and out_:
+                out_.append(out_[0])
+            return r.choice([None, out_, out_])
     if pname == 'fmt':
         return r.choice(['{prefix}{j}', '{prefix}{i}', 'a{i}', '{prefix}_{i}{j}', '{i}{prefix}', 'v{j}', 'x', '{prefix}'])
     if pname in ('target', 'constant_string'):
@@ -400,7 +433,10 @@ def sweep(targets, n, seed, sidecar):
             # (an error while evaluating may come from an `ensures` that needs the result: not a skip)
             try:
                 if how == 'call':
-                    if '.' in target.split(':')[1] and target.split(':')[1].split('.')[-1] == '__init__':
+                    if target.endswith('Model.__init__'):
+                        fn(*args)
+                        res = None
+                    elif '.' in target.split(':')[1] and target.split(':')[1].split('.')[-1] == '__init__':
                         obj = fn.__self__ if hasattr(fn, '__self__') else None
                         cls = getattr(importlib.import_module(target.split(':')[0]), target.split(':')[1].split('.')[0])
                         res_obj = cls(*args[1:])
